@@ -53,6 +53,18 @@ CHECKS = {
          "For every packet and start offset the compressed bytes are decoded by the reference decoder (must equal the intended packet, so every pointer expands to the intended name and is message-relative), and every in-place pointer is checked to point strictly backwards at the start of a label written in place earlier; no pointer may appear inside SRV/NAPTR/KX/RRSIG/NSEC/IPSECKEY/SVCB/HTTPS RDATA; a whole name repeated in a compressible position whose earlier occurrence starts at <= 16383 must be a bare pointer. The straddle family puts first occurrences on both sides of 16384.",
          "Suffix sharing between different names is allowed but not demanded; RP/AFSDB/RT/NSAP-PTR names may or may not be compressed (the property is silent).",
          "DESIGN.md section 3, C07"),
+ "C04": ("exhaustive enumeration of packets x {plain, compressed} x writer configurations (Vec, growable cursor over 11 prefill/start combinations, fixed cursor and fixed slice at every capacity 0..=len+2, chunking writers, a failing writer at every byte) executed on the real write paths; framing judged by an independent strict decoder",
+         "For every packet and mode the vector-returning function's bytes are decoded strictly by the reference decoder (12-byte header, counts equal the entries walked with the OPT counted once, every RDLENGTH equal to what the type's schema consumes, nothing after the last entry, content equal to the packet). Every writer configuration must then produce exactly those bytes between its start offset and final position, leave every other byte untouched, return Err (never panic, never Ok) when capacity is short or the writer fails at any byte 0..len, and Ok when there is room; short writes (1/2/7 bytes per call) must be retried. The environment dimension (capacity, fault position) is enumerated completely for each packet.",
+         "Packets: the <=1-deviation families plus a fixed stride through the 4-slot name-sharing space (stated in the evidence); the stride, not the writer dimension, is what is not complete.",
+         "DESIGN.md section 3, C04"),
+ "C11": ("exhaustive enumeration of parser-accepted inputs from four generators (every valid compression layout of 1715 reference packets, all 65536 flag words x OPT variants, reference encodings of the C02 space with OPT at every index, and the accepted members of C01's malformed-input sweeps), each parsed, re-serialised plain and compressed by the real code, re-parsed and compared",
+         "For every accepted input both serialisations of the parsed packet must succeed and parse back to a packet equal in every observable field. The compression-layout generator is itself an exhaustive explorer over choice sequences (each name occurrence: k labels in place, then terminator or a pointer to any earlier position where the remaining labels begin, pointer-to-pointer included), so foreign layouts are covered completely for the bounded packets; the malformed-input sweeps supply odd-but-accepted messages (surplus RDATA, unknown types, empty RDATA).",
+         "One known finding is listed (RCODE 11..15 without OPT re-emitted as 1): see known_findings.json. Information the library does not expose (OPT flag bits, the numeric value of reserved opcodes) is not compared.",
+         "DESIGN.md section 3, C11"),
+ "C12": ("exhaustive enumeration of hostile byte strings (length <= 3 (4) over {00,2e,5c,61,80,c3,ff} plus maximal lengths) at every name, character-string, TXT and opaque position of every type, and of the accepted members of C01's sweeps; every public observer executed on the parsed packet under catch_unwind",
+         "Each byte string is placed in turn at the question name, owner name and every RDATA name / string / opaque field of all 39 typed variants; the real parser's output is then formatted with Debug and Display at every level, cloned, converted to owned, hashed, compared, queried for TXT attributes and string conversions, matched against question types/classes and passed to the name relations. Any panic is a violation; fallible conversions may return Err or a lossy rendering.",
+         "Only panics are judged, not the rendering chosen.",
+         "DESIGN.md section 3, C12"),
 }
 NOT_YET = {}
 
